@@ -567,6 +567,7 @@ fs_reference.eq = lambda i, r: i == r
 OUT_LINKS = {"l": "/o/od", "m": "/o/of", "n": "/o/none"}
 IN_LINKS = {"i": ["/s/a", "a", "b", "/s", ".", "f", "nowhere", "a/f", "/s/b", "j"], "j": ["b", "/s/a/b", "g", "i"]}
 DIRN = ["a", "b", "c"]
+BSN = ["a\\b", "c\\", "\\", "b\\a\\c"]      # names with a backslash: one component for the kernel
 FILEN = ["f", "g"]
 
 
@@ -577,7 +578,7 @@ def fs_path(rng, final=None, allow_out_final=False, decorate=True):
     comps = []
     level, linked = 1, False
     for _ in range(depth):
-        c = rng.choice(DIRN + DIRN + ["i", ".", ".."] if decorate else DIRN)
+        c = rng.choice(DIRN + DIRN + ["i", ".", ".."] + BSN[:1] if decorate else DIRN)
         if c == "..":
             if linked or level - 1 < 0:
                 c = "."
@@ -591,6 +592,8 @@ def fs_path(rng, final=None, allow_out_final=False, decorate=True):
     if final is None:
         pool = DIRN + FILEN + ["i", "j"] + (list(OUT_LINKS) if allow_out_final else [])
         final = rng.choice(pool)
+    if decorate and final in DIRN + FILEN and rng.random() < 0.08:
+        final = rng.choice(BSN)
     comps.append(final)
     s = "/".join(comps)
     if decorate:
@@ -683,6 +686,10 @@ FS_FIXTURE = [f"fscreate {hx('a/b')}", f"fsmkfile {hx('a/f')} {hx('hello')}", f"
               f"fssymlink {hx('a')} {hx('i')}", f"fssymlink {hx('nowhere')} {hx('j')}"]
 FS_SMALL = [f"fscreate {hx(p)}" for p in ["a", "a/f", "a/f/x", "c/b/a", "a/l", "n", "a/c/", "a/./c", "a/b/../c", "", "/s/c/c", "i/c"]] + \
            [f"fscreatef {hx('c/b')} {k}" for k in (0, 1)] + \
+           ["fscreate " + hx(p) for p in ["x\\y", "a\\b", "a/f\\x", "a/b\\", "\\q", "a\\b/c"]] + \
+           ["fsmkdir " + hx(p) for p in ["a/f\\d", "c\\d"]] + ["fsmkfile " + hx(p) + " " + hx("z") for p in ["c", "a\\f"]] + \
+           ["fsrmdir " + hx("a/f\\d") + " 1", "fsunlink " + hx("a\\f"), "fsrename " + hx("a/f") + " " + hx("a\\f") + " 1",
+            "fscopy " + hx("a/f") + " " + hx("a/f\\g") + " 1"] + \
            [f"fsrmdir {hx(p)} {r}" for p in ["a", "a/b", "a/l", "a/f", "c", "i"] for r in "01"] + \
            [f"fsunlink {hx(p)}" for p in ["a/f", "a/l", "a", "a/b/m", "n", "zz"]] + \
            [f"fsrename {hx(a)} {hx(b)} {f}" for a, b in [("a/f", "a/h"), ("zz", "a/h"), ("a/f", "a/b/g"), ("a", "c"), ("a/l", "a/m"), ("a/f", "a/f")] for f in "01"] + \
